@@ -38,7 +38,7 @@ Proof. rewrite skipn_app, Nat.sub_diag, skipn_all. reflexivity. Qed.
 
 (* one frame at [off]: the reader's test = the spec's frame_bytes_ok *)
 Definition frame_test (h : walhdr) (fh data : list N) (c1 c2 : N) : bool :=
-  (u32 fh 8 =? wh_salt1 h) && (u32 fh 12 =? wh_salt2 h) &&
+  (u32 fh 8 =? wh_salt1 h) && (u32 fh 12 =? wh_salt2 h) && negb (u32 fh 0 =? 0) &&
   (let '(a1, a2) := wal_checksum (wh_be h) c1 c2 (firstn 8 fh) in
    let '(d1, d2) := wal_checksum (wh_be h) a1 a2 data in (d1 =? u32 fh 16) && (d2 =? u32 fh 20)).
 
@@ -49,7 +49,7 @@ Proof.
   intros L1 L2. unfold frame_test, frame_bytes_ok.
   destruct (wal_checksum (wh_be h) c1 c2 (firstn 8 fh)) as [a1 a2].
   destruct (wal_checksum (wh_be h) a1 a2 data) as [d1 d2].
-  rewrite !andb_true_iff, !N.eqb_eq. tauto.
+  rewrite !andb_true_iff, negb_true_iff, !N.eqb_eq, N.eqb_neq. tauto.
 Qed.
 
 Lemma frame_ok_determines h fh data tl fh' data' tl' c1 c2 :
@@ -80,7 +80,7 @@ Proof.
     destruct (sub_some _ _ _ _ E2) as [S2 L2].
     assert (Hsk : skipn off b = fh ++ data ++ skipn (off + 24 + ps) b) by (rewrite S1, S2; reflexivity).
     pose proof (frame_test_ok h fh data c1 c2 L1 L2) as Hiff. unfold frame_test in Hiff.
-    assert (Hstop : ((u32 fh 8 =? wh_salt1 h) && (u32 fh 12 =? wh_salt2 h) &&
+    assert (Hstop : ((u32 fh 8 =? wh_salt1 h) && (u32 fh 12 =? wh_salt2 h) && negb (u32 fh 0 =? 0) &&
                (let '(a1, a2) := wal_checksum (wh_be h) c1 c2 (firstn 8 fh) in
                 let '(d1, d2) := wal_checksum (wh_be h) a1 a2 data in (d1 =? u32 fh 16) && (d2 =? u32 fh 20))) = false ->
               valid_prefix h (skipn off b) c1 c2 []).
@@ -88,6 +88,7 @@ Proof.
       destruct (frame_ok_determines h fh data _ fh' data' tl c1 c2 L1 L2 E Hok') as [-> ->].
       apply Hiff in Hok'. congruence. }
     destruct ((u32 fh 8 =? wh_salt1 h) && (u32 fh 12 =? wh_salt2 h)) eqn:Hs; cbn [negb]; [|apply Hstop; reflexivity].
+    destruct (u32 fh 0 =? 0) eqn:Hz; cbn [negb andb] in *; [apply Hstop; reflexivity|].
     destruct (wal_checksum (wh_be h) c1 c2 (firstn 8 fh)) as [a1 a2] eqn:Ea.
     destruct (wal_checksum (wh_be h) a1 a2 data) as [d1 d2] eqn:Ed.
     destruct ((d1 =? u32 fh 16) && (d2 =? u32 fh 20)) eqn:Hc; cbn [negb]; [|apply Hstop; reflexivity].
@@ -148,6 +149,7 @@ Proof.
   { rewrite S1. unfold fh, data. rewrite app_assoc, firstn_skipn. f_equal. f_equal. lia. }
   pose proof (frame_test_ok h fh data c1 c2 Lfh Ld) as Hiff. unfold frame_test in Hiff.
   destruct ((u32 fh 8 =? wh_salt1 h) && (u32 fh 12 =? wh_salt2 h)) eqn:Hs; cbn [negb] in H; [|discriminate].
+  destruct (u32 fh 0 =? 0) eqn:Hz; cbn [negb andb] in *; [discriminate|].
   destruct (wal_checksum (wh_be h) c1 c2 (firstn 8 fh)) as [a1 a2] eqn:Ea.
   destruct (wal_checksum (wh_be h) a1 a2 data) as [e1 e2] eqn:Ed.
   destruct ((e1 =? u32 fh 16) && (e2 =? u32 fh 20)) eqn:Hc; cbn [negb] in H; [|discriminate].
@@ -193,6 +195,7 @@ Proof.
     pose proof (proj2 (frame_test_ok h fh data c1 c2 L1 L2) Hok) as Ht. unfold frame_test in Ht.
     unfold next_ck in Hv'.
     destruct ((u32 fh 8 =? wh_salt1 h) && (u32 fh 12 =? wh_salt2 h)); [|cbn in Ht; discriminate]. cbn [negb andb] in H, Ht.
+    destruct (u32 fh 0 =? 0); [cbn in Ht; discriminate|]. cbn [negb andb] in H, Ht.
     destruct (wal_checksum (wh_be h) c1 c2 (firstn 8 fh)) as [a1 a2].
     destruct (wal_checksum (wh_be h) a1 a2 data) as [e1 e2]. rewrite Ht in H. cbn [negb fst snd f_commit] in H, Hv'.
     destruct (N.eqb_spec (u32 fh 4) 0) as [Ez|Enz]; cbn [negb] in H; [|discriminate].
